@@ -619,6 +619,42 @@ def special_cases():
     snap_after = repr([sorted((k, [str(x) for x in m.validators]) for k, m in p.measurements.items()) for p in rec.phases])
     if snap_before != snap_after:
       bad.append(('special:record-follows-declaration', 'adding a validator to the declared measurements changed the record of a finished run'))
+  # (c) a run under a test-wide option (stop_on_first_failure) leaves the declared phases' own options alone, and the next
+  #     run without the option is the run a fresh Test gives
+  base = make_base()
+
+  def f_body(test):
+    test.measurements.fm = 99          # fails its validator: with the option on, the run stops here
+
+  fphase = h.measures(h.Measurement('fm').in_range(0, 10))(h.PhaseOptions(name='f')(f_body))
+
+  def mk():
+    t = h.Test(fphase, base['Y'], notes={'seen': []})
+    c = htf.Capture()
+    t.add_output_callbacks(c)
+    return t, c
+
+  def summarize(rec):
+    return (rec.outcome.name, tuple((p.name, p.outcome.name, progs.result_kind(p.result)) for p in rec.phases))
+
+  t1, c1 = mk()
+  before = decl_state(t1)
+  t1.configure(stop_on_first_failure=True)
+  t1.execute()
+  with_opt = summarize(c1.records[0])
+  if decl_state(t1) != before:
+    bad.append(('special:option-run-mutated-test', 'a run with stop_on_first_failure changed the declared phases: %s'
+                % first_diff(before, decl_state(t1))))
+  t1.configure(stop_on_first_failure=False)
+  del c1.records[:]
+  t1.execute()
+  after_opt = summarize(c1.records[0])
+  t2, c2 = mk()
+  t2.execute()
+  fresh = summarize(c2.records[0])
+  if after_opt != fresh:
+    bad.append(('special:option-leaks-into-next-run', 'run without stop_on_first_failure after a run with it: %r; a fresh Test gives %r '
+                '(the run with the option: %r)' % (after_opt, fresh, with_opt)))
   return [(k, w, {'part': 'special'}) for k, w in bad]
 
 
